@@ -281,11 +281,41 @@ func c11RunContext(c *Ctx) *RuleResult {
 		}
 		return true
 	})
+	// the run phase may live in a helper method that creates the context, runs the command and
+	// hands the context back as its first result
+	var helper *FuncUnit
+	var helperCall *ast.CallExpr
+	if run == nil {
+		ast.Inspect(u.Decl.Body, func(n ast.Node) bool {
+			hc, ok := n.(*ast.CallExpr)
+			if !ok || helper != nil {
+				return true
+			}
+			hu := p.UnitOf(calleeOf(info, hc))
+			if hu == nil || hu.Fn.Pkg() != u.Fn.Pkg() {
+				return true
+			}
+			ast.Inspect(hu.Decl.Body, func(m ast.Node) bool {
+				if x, ok := m.(*ast.CallExpr); ok {
+					if sel, ok := ast.Unparen(x.Fun).(*ast.SelectorExpr); ok && sel.Sel.Name == "Run" && strings.HasSuffix(exprStr(sel.X), ".runner") {
+						run = x
+						helper, helperCall = hu, hc
+					}
+				}
+				return true
+			})
+			return true
+		})
+	}
 	if run == nil {
 		panic(anchorError("localBuildExecutor.Execute: runner.Run"))
 	}
+	mkUnit := u
+	if helper != nil {
+		mkUnit = helper
+	}
 	ctxName := exprStr(run.Args[0])
-	ast.Inspect(u.Decl.Body, func(n ast.Node) bool {
+	ast.Inspect(mkUnit.Decl.Body, func(n ast.Node) bool {
 		if as, ok := n.(*ast.AssignStmt); ok && len(as.Lhs) == 2 && exprStr(as.Lhs[0]) == ctxName && len(as.Rhs) == 1 {
 			mk = as
 		}
@@ -296,10 +326,44 @@ func c11RunContext(c *Ctx) *RuleResult {
 	if mk != nil {
 		if call, ok := ast.Unparen(mk.Rhs[0]).(*ast.CallExpr); ok {
 			if sel, ok := ast.Unparen(call.Fun).(*ast.SelectorExpr); ok && sel.Sel.Name == "NewContextWithTimeout" && strings.HasSuffix(exprStr(sel.X), ".clock") && len(call.Args) == 2 {
-				d := resolveLocalAlias(u, call.Args[1])
+				d := resolveLocalAlias(mkUnit, call.Args[1])
+				if helper != nil {
+					// the duration is a parameter of the helper: what Execute passes for it
+					if id, ok := ast.Unparen(d).(*ast.Ident); ok {
+						sig := helper.Fn.Type().(*types.Signature)
+						for i := 0; i < sig.Params().Len() && i < len(helperCall.Args); i++ {
+							if helper.Info().ObjectOf(id) == sig.Params().At(i) {
+								d = resolveLocalAlias(u, helperCall.Args[i])
+							}
+						}
+					}
+				}
 				if strings.Contains(exprStr(d), ".Timeout.AsDuration()") {
 					okM = true
 				}
+			}
+		}
+	}
+	helperWaits := false
+	if helper != nil {
+		// the helper waits for the context to finish on every path after running the command
+		hg := NewFuncCFG(helper.Info(), helper.Decl.Body)
+		var hDone ast.Node
+		ast.Inspect(helper.Decl.Body, func(n ast.Node) bool {
+			if ue, ok := n.(*ast.UnaryExpr); ok && ue.Op == token.ARROW && exprStr(ue.X) == ctxName+".Done()" {
+				hDone = ue
+			}
+			return true
+		})
+		if hDone != nil && hg.Dominates(run, hDone) && hg.EveryPathPasses(func(n ast.Node) bool { return n == hDone }) {
+			helperWaits = true
+		}
+		// in Execute the context is the helper's first result
+		run = helperCall
+		ctxName = ""
+		for _, anc := range pathTo(u.Decl.Body, helperCall) {
+			if as, ok := anc.(*ast.AssignStmt); ok && len(as.Rhs) == 1 && len(as.Lhs) >= 1 {
+				ctxName = exprStr(as.Lhs[0])
 			}
 		}
 	}
@@ -323,7 +387,7 @@ func c11RunContext(c *Ctx) *RuleResult {
 		}
 		if sel, ok := ast.Unparen(call.Fun).(*ast.SelectorExpr); ok && sel.Sel.Name == "Value" && exprStr(sel.X) == ctxName && strings.Contains(exprStr(call), "UnsuspendedDurationKey") {
 			construct := constructOf(u, "virtual duration read")
-			if doneRecv != nil && g.Dominates(doneRecv, call) && g.Dominates(run, doneRecv) {
+			if (doneRecv != nil && g.Dominates(doneRecv, call) && g.Dominates(run, doneRecv)) || (helperWaits && g.Dominates(run, call)) {
 				r.ok(construct, posOf(p, call), "read after <-ctx.Done()")
 			} else {
 				r.bad(c.Prop, construct, posOf(p, call), "the unsuspended duration is read before the timeout context has finished: the reported virtual execution duration is not final")
